@@ -311,7 +311,7 @@ def partitions(tier, seed):
             # one leaf at a time over its whole width, warn mode (value warnings, symbolic value texts)
             cand = [x for x in tr if x[4] == "leaf" and sp.L()["types"][x[1]]["name"] != "BYTE"]
             cand.sort(key=lambda x: not sp.L()["types"][x[1]]["signed"])  # signed fields first
-            for x in cand[:3]:
+            for x in cand[:2]:
                 parts.append(sp.M(P, "C14", sp.cmd_key(), "%s-warn/value@%s" % (lab, x[0]), data, list(range(x[2], x[2] + x[3])), budget=60, cfg={"warn": True}))
         for label, enc, data in G.responses(cc, minimal=quick):
             lab = "%s-%s" % (sp.cc_name(cc), label)
@@ -326,7 +326,7 @@ def partitions(tier, seed):
         for k in sp.struct_keys():
             if sp.short(k).startswith("TPML_"):
                 for i, data in enumerate(G.variants(k)):
-                    for warn in (False, True):
+                    for warn in ((False, True) if sp.short(k) == "TPML_CCA" else (False,)):
                         for p_ in shape_parts("C14", P, k, "v%d%s" % (i, "-warn" if warn else ""), data, budget=40):
                             p_["cfg"]["warn"] = warn
                             parts.append(p_)
